@@ -15,6 +15,8 @@ mod misc;
 mod pwstr;
 #[cfg(feature = "nightly")]
 mod nightly;
+#[cfg(feature = "nightly")]
+mod nightly_os;
 mod polymath;
 mod sign;
 mod so;
@@ -47,6 +49,12 @@ fn property(id: &str) -> Option<(Registry, Option<Gen>)> {
         #[cfg(not(feature = "nightly"))]
         "C16" => (misc::C16, Some(misc::c16 as Gen)),
         "C17" => (aead::C17, Some(aead::c17 as Gen)),
+        #[cfg(feature = "nightly")]
+        "C14" => (nightly_os::C14, Some(nightly_os::c14 as Gen)),
+        #[cfg(feature = "nightly")]
+        "C19" => (nightly_os::C19, Some(nightly_os::c19 as Gen)),
+        #[cfg(feature = "nightly")]
+        "C18" => (nightly::C18, Some(nightly::c18 as Gen)),
         // properties about memory protection, build configurations and the
         // type system: nothing to replay against libsodium
         "C14" | "C15" | "C18" | "C19" | "C20" => (&[], None),
